@@ -143,6 +143,7 @@ class Explorer(object):
         self.cfg = fn.cfg()
         self.max_steps = max_steps
         self.heads = {n.id: n for n in self.cfg.nodes if n.kind == 'nop' and n.name == 'loop-head'}
+        self._loop_info = None
         self.cursors = {}     # decl id -> name
         self.scalars = {}     # decl id -> name
         for d in list(fn.params) + list(fn.locals()):
@@ -166,6 +167,8 @@ class Explorer(object):
         self.helper_cache = {}
         self.exvals = {}
         self.tables = {}      # name of a const char array with a literal initialiser -> its bytes (terminator included)
+        self.tables2 = {}     # name of a const two-dimensional array of constants -> rows
+        self.const_scalars = {}   # decl id of a const integer object with a constant initialiser -> value
         for g in list(u.globals) + [d for (_f, d) in u.static_locals()]:
             t = u.ty(g['ty'])
             if t['c'] == 'array' and 'init' in g and (g.get('const') or t.get('const')):
@@ -175,9 +178,16 @@ class Explorer(object):
                     tb = list(ini['bytes'])
                 elif ini.get('k') == 'initlist' and all(const_val(i) is not None for i in ini['inits']):
                     tb = [const_val(i) & 255 for i in ini['inits']]
+                elif ini.get('k') == 'initlist' and ini['inits'] and all(
+                        strip_casts(r).get('k') == 'initlist' and all(const_val(c) is not None for c in strip_casts(r)['inits'])
+                        for r in ini['inits']):
+                    # rows of constants: T[i][j]
+                    self.tables2[g['n']] = [[const_val(c) & 255 for c in strip_casts(r)['inits']] for r in ini['inits']]
                 if tb is not None and t.get('count') is not None:
                     tb = (tb + [0] * t['count'])[:t['count']]       # the terminator of a literal and trailing zero-initialised elements
                     self.tables[g['n']] = tb
+            elif t['c'] in ('int', 'bool') and 'init' in g and (g.get('const') or t.get('const')) and const_val(g['init']) is not None:
+                self.const_scalars[g['d']] = const_val(g['init'])
 
     # ---- positions -----------------------------------------------------------------------------------
     def cursor_of(self, e):
@@ -414,6 +424,16 @@ class Explorer(object):
         e = strip_casts(e0)
         k = e.get('k')
         val = None
+        if k == 'ref' and e.get('d') in self.const_scalars:
+            return self.finish(e0, e, self.const_scalars[e['d']])
+        if k == 'idx' and strip_casts(e['b']).get('k') == 'idx' and strip_casts(strip_casts(e['b'])['b']).get('n') in self.tables2 and \
+                strip_casts(strip_casts(e['b'])['b']).get('dk') in ('global', 'slocal'):
+            rows = self.tables2[strip_casts(strip_casts(e['b'])['b'])['n']]
+            i_ = self.ev(strip_casts(e['b'])['i'], st, subst, loadpos)
+            j_ = self.ev(e['i'], st, subst, loadpos)
+            if i_ is None or j_ is None or not (0 <= i_ < len(rows)) or not (0 <= j_ < len(rows[i_])):
+                return None
+            return self.finish(e0, e, rows[i_][j_])
         if k in ('idx', 'un') and access(e) is not None and self.table_pos(e, st) is not None:
             tn, ti = self.table_pos(e, st)
             tb = self.tables[tn]
@@ -842,6 +862,16 @@ class Explorer(object):
             if steps > self.max_steps:
                 raise AnalysisBroken('byte-path exploration of %s does not finish' % self.fn.name)
             node = self.cfg.nodes[st.nid]
+            if st.nid in self.heads and not st.fresh and self.unrollable(st):
+                # a loop that only steps scalars whose values are known here (a search of a constant table by index): followed
+                # iteration by iteration inside the segment
+                sg = st.sig()
+                if sg in seen:
+                    continue
+                seen.add(sg)
+                for s2 in self.step(node, st):
+                    work.append(s2)
+                continue
             if st.nid in self.heads and not st.fresh:
                 # arriving at a loop head ends the segment; the next one starts from a re-based, forgotten state
                 self.close(st, ('head', st.nid), node)
@@ -862,6 +892,42 @@ class Explorer(object):
             for s2 in self.step(node, st):
                 work.append(s2)
         return self.segments
+
+    def unrollable(self, st):
+        if self._loop_info is None:
+            info = {}
+            for h in self.heads:
+                # natural loop of h: the sources of its back edges and everything that reaches them without passing h
+                tails = [x for (x, _l) in self.cfg.pred[h] if self.cfg.dominates(h, x)]
+                body = {h}
+                for t_ in tails:
+                    body |= self.cfg.reachable(t_, forward=False, stop={h}) | {t_}
+                mods, moves, inner = set(), False, False
+                for nid in body:
+                    n = self.cfg.nodes[nid]
+                    if nid != h and nid in self.heads:
+                        inner = True
+                    for ev in node_effects(n):
+                        if ev.kind in ('store', 'incdec') and ev.lhs is not None:
+                            t = strip_casts(ev.lhs)
+                            if t.get('k') == 'ref' and t.get('d') in self.scalars:
+                                mods.add(self.scalars[t['d']])
+                            elif t.get('k') == 'ref' and t.get('d') in self.cursors:
+                                moves = True
+                            else:
+                                moves = True          # a store through memory: not a pure search
+                        elif ev.kind == 'declinit' and ev.lhs.get('d') in self.scalars:
+                            mods.add(self.scalars[ev.lhs['d']])
+                        elif ev.kind == 'declinit' and ev.lhs.get('d') in self.cursors:
+                            moves = True
+                        elif ev.kind == 'call':
+                            moves = True
+                info[h] = (mods, moves or inner)
+            self._loop_info = info
+        mods, blocked = self._loop_info[st.nid]
+        if blocked or not mods:
+            return False
+        return all(st.vals.get(n) is not None and st.vals[n][0] == 'k' for n in mods)
 
     def step(self, node, st):
         """Successor states of executing node in st."""
